@@ -21,8 +21,9 @@
       commit, commitWithTable, runMerge through the verif export hooks, fetch.Fetch against the
       reference server, prune.Prune, ref.DeleteHead - vs [op_writes]; only the batch with
       generator-chosen / hostile packfile orders re-enacts fetch's ref rule).
-    - pull = fetch followed by a merge operation: covered as a history (C13_history_consistent);
-      the re-run theorems are stated per constituent operation.  Fast-forward merge and
+    - pull is the operation [OPull] (fetch, then create the local branch / fast-forward / merge);
+      its re-run theorem is proved for the branch-creating pull, the merging pull is the
+      history fetch ; merge whose re-run theorems are stated per constituent operation.  Fast-forward merge and
       DeleteHead are single writes (a crash is before or after them).  The re-run theorem for fetch assumes
       that the interrupted run's object phase had succeeded and re-runs with the same objects.
     - leftover garbage is allowed and does occur: objects of an interrupted commit / merge /
@@ -31,7 +32,7 @@
 From Coq Require Import List NArith Bool String.
 From W.model Require Import CrashRepo Crash.
 From W.proofs Require Import CrashRepo_proofs Crash_proofs CrashKahn_proofs CrashPrune_proofs
-  CrashFetch_proofs CrashTop_proofs.
+  CrashFetch_proofs CrashPull_proofs CrashTop_proofs.
 Import ListNotations.
 Local Open Scope N_scope.
 
@@ -161,6 +162,29 @@ Theorem C13_rerun_fetch :
     (forall r, head_of r (apply_all ws2 cs) = head_of r (apply_all ws1 s)).
 Proof. exact CrashFetch_proofs.fetch_rerun. Qed.
 Print Assumptions C13_rerun_fetch.
+
+(** Re-run of `wrgl pull` into a branch that does not exist yet (fetch, remote-tracking ref,
+    then the local branch; [OPull] is part of C13_prefix_consistent like every operation): cut
+    after ANY number of writes - in particular between its two ref writes, when the name
+    already resolves to the remote-tracking ref - and run again, it succeeds, the state is
+    invariant and the local branch and the tracking ref both name the fetched commit, as after
+    the uninterrupted run.  The local branch is "new" exactly when heads/BRANCH is absent. *)
+Theorem C13_rerun_pull_new_branch :
+  forall (sk : skels) (dv : deriver), skels_ok sk = true ->
+  forall (r rr : N) (objs : list pobj) (c : cid) (force : bool) (t : table), r <> rr ->
+  forall (sched1 sched2 : schedule) (s : state) (n1 n2 : N) (n : nat),
+    valid_sched sched1 -> valid_sched sched2 -> Inv s ->
+    head_of r s = None ->
+    snd (op_writes sk dv sched1 s (OPull r rr objs c force t n1)) = true ->
+    let ws1 := fst (op_writes sk dv sched1 s (OPull r rr objs c force t n1)) in
+    let cs := crash n ws1 s in
+    snd (op_writes sk dv sched2 cs (OPull r rr objs c force t n2)) = true /\
+    Inv (run_op sk dv sched2 cs (OPull r rr objs c force t n2)) /\
+    head_of r (run_op sk dv sched2 cs (OPull r rr objs c force t n2)) = Some c /\
+    head_of rr (run_op sk dv sched2 cs (OPull r rr objs c force t n2)) = Some c /\
+    head_of r (apply_all ws1 s) = Some c /\ head_of rr (apply_all ws1 s) = Some c.
+Proof. exact CrashPull_proofs.pull_new_branch_rerun. Qed.
+Print Assumptions C13_rerun_pull_new_branch.
 
 (** Re-run of prune after a crash anywhere: it ends exactly where the uninterrupted sweep
     ends as far as commits, tables, blocks, block indices and refs are concerned (commits are
